@@ -51,7 +51,7 @@ pub fn get() -> FunctionDefinitions {
                                 let str = if size > str.len() {
                                     str
                                 } else {
-                                    str[..size].into()
+                                    str.chars().take(size).collect()
                                 };
                                 Some(str.into())
                             }
